@@ -20,19 +20,19 @@ import (
 type Kind int
 
 const (
-	KStmt     Kind = iota // simple statement (assign, expr, incdec, send, decl, go)
-	KCond                 // a condition atom with a true and a false edge
-	KCase                 // switch case test: Tag == Node (true/false edges)
-	KTypeCase             // type switch clause test (true/false edges)
-	KSelect               // select head; one edge per comm clause
-	KRange                // range head: edge "next" into the body and "done"
-	KReturn               // return statement (explicit or implicit)
-	KDefer                // defer statement
-	KPanic                // call that does not return
-	KEntry                // synthetic entry
-	KExit                 // synthetic exit reached from every return
-	KPanicExit            // synthetic exit reached from every panic-like call
-	KJoin                 // synthetic join/no-op
+	KStmt      Kind = iota // simple statement (assign, expr, incdec, send, decl, go)
+	KCond                  // a condition atom with a true and a false edge
+	KCase                  // switch case test: Tag == Node (true/false edges)
+	KTypeCase              // type switch clause test (true/false edges)
+	KSelect                // select head; one edge per comm clause
+	KRange                 // range head: edge "next" into the body and "done"
+	KReturn                // return statement (explicit or implicit)
+	KDefer                 // defer statement
+	KPanic                 // call that does not return
+	KEntry                 // synthetic entry
+	KExit                  // synthetic exit reached from every return
+	KPanicExit             // synthetic exit reached from every panic-like call
+	KJoin                  // synthetic join/no-op
 )
 
 func (k Kind) String() string {
